@@ -1,4 +1,4 @@
----------------------------- MODULE ExprRT ----------------------------
+---------------------------- MODULE ExprSyntax_sketch ----------------------------
 EXTENDS Naturals, Sequences, FiniteSets, TLC, Json
 VARIABLE cur
 
@@ -90,5 +90,6 @@ Val(e) ==
 D == 2
 Init == cur \in Trees(D)
 Next == UNCHANGED cur
-RoundTrip == LET r == ParseAll(Show(cur)) IN (~IsErr(r) /\ Val(r.e) = Val(cur)) \/ TRUE
+RoundTrip == LET r == ParseAll(Show(cur)) IN ~IsErr(r) /\ Val(r.e) = Val(cur)
+\* (the 196 422-tree timing run used `... \/ TRUE`; -continue does the same job)
 =============================================================================
